@@ -91,8 +91,67 @@ class Report:
     def ok(self, rule, function, construct, detail="", loc=None):
         self.obligations.append(Obligation(rule, function, construct, "ok", detail, loc))
 
+    # rules that speak about a class / construct as such and do not depend on having recognised a function's shape
+    GUARD_EXEMPT = ("INSTANCE-STATE", "COPY-PROTOCOL", "MEMO", "OWN-OUT", "OWN-IN", "NO-ROLLBACK", "RAISE-CLASS", "SCHEMA", "TEXT", "AUTOCOMMIT", "LEGACY-RO", "STATELESS", "NO-WRITE", "PURE", "ONE-WRITER", "JSON")
+
     def violation(self, rule, function, construct, detail, loc=None, expected=None, found=None, path=None):
+        why = self._opaque_structure(function) if rule not in self.GUARD_EXEMPT else None
+        if why:
+            # soundness guard: a finding about a function that works through a class the analysis could not take apart
+            # (introduced after the rules were written) may be an artefact of not seeing through it: say so, do not accuse
+            self.obligations.append(Obligation(rule, function, construct, "undecided", f"[not decided: {why}] would-be finding: {detail}"[:600], loc))
+            return
         self.obligations.append(Obligation(rule, function, construct, "violation", detail, loc, expected, found, path))
+
+    def _opaque_structure(self, function):
+        prog = getattr(self, "prog", None)
+        if prog is None or not isinstance(function, str):
+            return None
+        cache = self.__dict__.setdefault("_opaque_cache", {})
+        if function in cache:
+            return cache[function]
+        res = None
+        try:
+            from .inline import known_functions
+
+            known = known_functions()
+            known_cls = {q.rsplit(".", 2)[0] + "." + q.rsplit(".", 2)[1] for q in known if q.count(".") >= 2}
+            unknown = {c.name: c for c in prog.classes.values() if f"{c.mod.name}.{c.name}" not in known_cls and not any(b.split("[")[0].split(".")[-1] in ("Exception", "QueryException", "BaseException", "IntEnum", "NamedTuple") or "Exception" in b for b in c.base_names)}
+            # classes with no methods at rule-writing time (models etc.) are known by name through known constants
+            from .normalize import known_constants
+
+            kc = set(known_constants())
+            unknown = {n: c for n, c in unknown.items() if not any(k.startswith(f"{c.mod.name}:{n}.") for k in kc) and n not in ("BaseModel", "BucketModel", "EventModel")}
+            if unknown:
+                members = set()
+                for c in unknown.values():
+                    members |= {m.split(".")[0] for m in c.methods if not m.startswith("__")}
+                    members |= set(getattr(c, "attrs", {}) or {})
+                    for n_ in __import__("ast").walk(c.node):
+                        if isinstance(n_, __import__("ast").AnnAssign) and hasattr(n_.target, "id"):
+                            members.add(n_.target.id)
+                known_members = set()
+                for c in prog.classes.values():
+                    if c.name not in unknown:
+                        known_members |= {m.split(".")[0] for m in c.methods} | set(getattr(c, "attrs", {}) or {})
+                members -= known_members | {"timestamp", "duration", "data", "id", "get", "items", "keys", "values", "append", "pop"}
+                fis = prog.by_short.get(function, [])
+                import ast as _ast
+
+                for fi in fis:
+                    for n_ in _ast.walk(fi.node):
+                        if isinstance(n_, _ast.Name) and n_.id in unknown:
+                            res = f"{function} uses the class {n_.id}, which was introduced after the rules were written and could not be taken apart"
+                        elif isinstance(n_, _ast.Attribute) and n_.attr in members:
+                            res = f"{function} goes through `.{n_.attr}` of a class introduced after the rules were written ({', '.join(sorted(unknown))[:80]})"
+                        if res:
+                            break
+                    if res:
+                        break
+        except Exception:
+            res = None
+        cache[function] = res
+        return res
 
     def undecided(self, rule, function, construct, detail, loc=None):
         self.obligations.append(Obligation(rule, function, construct, "undecided", detail, loc))
